@@ -132,6 +132,8 @@ struct Stats {
     honest_rejected: Vec<Value>,
     proofs: u64,
     roundtrips: u64,
+    recompressions: u64,
+    roundtrips_by_schedule: BTreeMap<String, u64>,
     verdict_pairs: u64,
     tampered: u64,
     tampered_both_accept: u64,
@@ -245,9 +247,12 @@ fn one_config<C: GenericConfig<D, F = F>>(cfg: &Cfg, nproofs: usize, r: &mut Cha
             Ok(Ok(c)) => Some(c),
             _ => None,
         };
+        let sched = format!("{ar:?}").replace(' ', "");
+        let key = |what: &str| format!("C16/roundtrip/{sched}/{what}");
         if accepted {
             match &cp {
-                None => st.violation(json!({"key": "C16/compress-fails", "ctx": ctx, "q": q})),
+                None => st.violation(json!({"key": key("compress-fails"), "ctx": ctx, "q": q,
+                                            "err": format!("{:?}", guarded(|| data.compress(proof.clone()).map(|_| ()).map_err(|e| format!("{e:#}"))))})),
                 Some(c) => {
                     match guarded(|| data.decompress(c.clone())) {
                         Ok(Ok(mut dp)) => {
@@ -257,23 +262,39 @@ fn one_config<C: GenericConfig<D, F = F>>(cfg: &Cfg, nproofs: usize, r: &mut Cha
                                 *e += F::ONE;
                             }
                             st.roundtrips += 1;
+                            *st.roundtrips_by_schedule.entry(sched.clone()).or_insert(0) += 1;
                             if dp != proof {
-                                st.violation(json!({"key": "C16/roundtrip", "ctx": ctx, "q": q,
+                                st.violation(json!({"key": key("decompress-compress-not-identity"), "ctx": ctx, "q": q,
                                     "first_difference": first_difference(&proof, &dp)}));
+                            } else {
+                                // compress(decompress(c)) == c
+                                st.recompressions += 1;
+                                match guarded(|| data.compress(dp.clone())) {
+                                    Ok(Ok(c2)) => {
+                                        if &c2 != c {
+                                            st.violation(json!({"key": key("compress-decompress-not-identity"), "ctx": ctx, "q": q}));
+                                        }
+                                    }
+                                    other => st.violation(json!({"key": key("recompress-fails"), "ctx": ctx, "q": q,
+                                                                 "err": format!("{:?}", other.err())})),
+                                }
                             }
                         }
-                        other => st.violation(json!({"key": "C16/decompress-fails", "ctx": ctx, "q": q, "err": format!("{:?}", other.err())})),
+                        Ok(Err(e)) => st.violation(json!({"key": key("decompress-fails"), "ctx": ctx, "q": q, "err": format!("{e:#}")})),
+                        Err(m) => st.violation(json!({"key": key("decompress-panics"), "ctx": ctx, "q": q, "err": m})),
                     }
                 }
             }
         }
-        let vc = match &cp {
-            Some(c) => ok(guarded(|| data.verify_compressed(c.clone()))),
-            None => false,
+        let vc_res = match &cp {
+            Some(c) => guarded(|| data.verify_compressed(c.clone()).map_err(|e| format!("{e:#}"))),
+            None => Ok(Err("compress failed".to_string())),
         };
+        let vc = matches!(vc_res, Ok(Ok(())));
         st.verdict_pairs += 1;
         if vc != accepted {
-            st.violation(json!({"key": "C16/verdict/honest", "ctx": ctx, "verify": accepted, "verify_compressed": vc, "q": q}));
+            st.violation(json!({"key": key("verdict-honest"), "ctx": ctx, "verify": accepted, "verify_compressed": vc,
+                                "verify_compressed_result": format!("{vc_res:?}"), "q": q}));
         }
         if st.samples.len() < 3 && (rep || share.iter().any(|s| *s)) {
             st.samples.push(json!({"cfg": cfg.id(), "query_indices": q, "repeated_index": rep, "shared_coset_per_layer": share,
@@ -381,7 +402,7 @@ fn one_config<C: GenericConfig<D, F = F>>(cfg: &Cfg, nproofs: usize, r: &mut Cha
             st.tampered += 1;
             st.tampered_both_accept += (v2 && vc2) as u64;
             if v2 != vc2 {
-                st.violation(json!({"key": format!("C16/verdict/tampered/{kind}"), "ctx": ctx, "verify": v2,
+                st.violation(json!({"key": key(&format!("verdict-tampered-{kind}")), "ctx": ctx, "verify": v2,
                                     "verify_compressed": vc2, "q": q}));
             }
         }
@@ -459,6 +480,25 @@ fn grid(thorough: bool) -> Vec<Cfg> {
             }
         }
     }
+    // non-constant arity schedules (the per-layer index arithmetic differs from layer to layer) at several
+    // circuit degrees, with few queries (model-sized tuples) and many (collisions)
+    let nonconst = vec![
+        Fixed(vec![1, 3]), Fixed(vec![3, 1, 2]), Fixed(vec![2, 1]), Fixed(vec![1, 2]), Fixed(vec![2, 3, 1]),
+        MinSize(None), MinSize(Some(3)), ConstantArityBits(2, 1), ConstantArityBits(3, 1),
+    ];
+    for (si, strat) in nonconst.iter().enumerate() {
+        for (ri, rows) in [9usize, 40, 100].into_iter().enumerate() {
+            for (qi, q) in [3usize, 24].into_iter().enumerate() {
+                for cap in [0usize, 2] {
+                    t += 1;
+                    if !thorough && (si + ri + qi + cap / 2) % 2 == 1 {
+                        continue;
+                    }
+                    out.push(Cfg { rate: 3, cap, q, strat: strat.clone(), zk: false, lookups: t % 4 == 0, rows, keccak: t % 6 == 0 });
+                }
+            }
+        }
+    }
     out
 }
 
@@ -482,7 +522,8 @@ fn real(args: &[String]) -> anyhow::Result<()> {
     }
     let ntraces = traces.map(|t| t.finish()).unwrap_or(0);
     emit(&json!({"kind": "c16-real", "configs": st.configs, "skipped_configs": st.skipped_configs, "skip_reasons": st.skip_reasons, "honest_rejected": st.honest_rejected, "proofs": st.proofs,
-        "roundtrips": st.roundtrips, "verdict_pairs": st.verdict_pairs, "tampered": st.tampered,
+        "roundtrips": st.roundtrips, "recompressions": st.recompressions,
+        "roundtrips_by_schedule": st.roundtrips_by_schedule, "verdict_pairs": st.verdict_pairs, "tampered": st.tampered,
         "tampered_both_accept": st.tampered_both_accept, "tampered_compress_panics": st.tampered_compress_panics,
         "redundant_tampers": st.redundant_tampers, "redundant_rejected_plain": st.redundant_rejected_plain,
         "redundant_accepted_compressed": st.redundant_accepted_compressed,
@@ -531,6 +572,8 @@ fn replay_fricompress(args: &[String]) -> anyhow::Result<()> {
     let mut r = rng(1602);
     let mut cache: HashMap<String, Synth> = HashMap::new();
     let mut replayed = 0u64;
+    let mut lossless_checked = 0u64;
+    let mut drift_ids: Vec<usize> = vec![];
     let mut drift: Vec<Value> = vec![];
     let mut violations: Vec<Value> = vec![];
     let mut samples: Vec<Value> = vec![];
@@ -649,6 +692,44 @@ fn replay_fricompress(args: &[String]) -> anyhow::Result<()> {
             }
             cur = cosets;
         }
+        // property level (whatever the layout): compression must not LOSE data - the leaves of every distinct
+        // queried index and the evaluations of every distinct queried coset (less one inferable element) must
+        // still be somewhere in the compressed proof; otherwise no decompression can return the original
+        let sched = format!("{ar:?}").replace(' ', "");
+        let mut lost: Vec<String> = vec![];
+        for (a, &x) in q.iter().enumerate() {
+            for t in 0..2 {
+                if !cq.initial_trees_proofs.values().any(|e| e.evals_proofs.len() == 2 && e.evals_proofs[t].0 == sy.init_leaves[t][x]) {
+                    lost.push(format!("leaf of initial tree {t} at index {x} (query {a})"));
+                }
+            }
+        }
+        let mut cur2 = q.clone();
+        for (j, &a) in ar.iter().enumerate() {
+            let cosets: BTreeSet<usize> = cur2.iter().map(|x| x >> a).collect();
+            for &c in &cosets {
+                let full = &sy.step_evals[j][c];
+                let present = j < cq.steps.len() && cq.steps[j].values().any(|st| {
+                    st.evals.len() + 1 == full.len() && (0..full.len()).any(|p| {
+                        let mut e = full.clone();
+                        e.remove(p);
+                        e == st.evals
+                    })
+                });
+                if !present {
+                    lost.push(format!("evaluations of coset {c} of reduction {j}"));
+                }
+            }
+            cur2 = cur2.iter().map(|x| x >> a).collect();
+        }
+        lossless_checked += 1;
+        if !lost.is_empty() && violations.len() < 20 {
+            lost.truncate(4);
+            violations.push(json!({"key": format!("C16/roundtrip/{sched}/compress-loses-data"), "scenario": sc, "lost": lost}));
+        }
+        if !bad.is_empty() {
+            drift_ids.push(sn);
+        }
         if samples.len() < 2 && rep && share.iter().any(|s| *s) && q.len() == 3 {
             samples.push(json!({"scenario": sc, "real_compress_matches_model": bad.is_empty()}));
         }
@@ -657,7 +738,8 @@ fn replay_fricompress(args: &[String]) -> anyhow::Result<()> {
             drift.push(json!({"what": "FriProof::compress has another shape than spec/FriCompress", "scenario": sc, "differences": bad}));
         }
     }
-    emit(&json!({"kind": "c16-replay-fricompress", "scenarios": scen.len(), "replayed": replayed, "classes": classes,
+    emit(&json!({"kind": "c16-replay-fricompress", "scenarios": scen.len(), "replayed": replayed, "lossless_checked": lossless_checked,
+                 "drift_scenario_ids": drift_ids, "classes": classes,
                  "drift": drift, "violations": violations, "samples": samples}));
     Ok(())
 }
